@@ -87,7 +87,10 @@ def fragment_header(state):
     else:
         # (14.2) Appart from when fragment_slice_count==0, the picture number
         # must not change
-        if state["_last_picture_number"] != state["picture_number"]:
+        if (
+            "_last_picture_number" in state
+            and state["_last_picture_number"] != state["picture_number"]
+        ):
             raise PictureNumberChangedMidFragmentedPicture(
                 state["_last_picture_number_offset"],
                 state["_last_picture_number"],
@@ -99,10 +102,14 @@ def fragment_header(state):
         #
         # (14.2) A fragmented picture must not contain any extra slices
         if state["fragment_slice_count"] > state["_fragment_slices_remaining"]:
+            # NB: If no fragmented picture has been started in this sequence
+            # (i.e. no fragment with fragment_slice_count==0 has been
+            # received) there is no initial fragment or received slice count to
+            # report: this fragment stands in for the missing initial fragment.
             raise TooManySlicesInFragmentedPicture(
-                state["_picture_initial_fragment_offset"],
+                state.get("_picture_initial_fragment_offset", fragment_offset),
                 fragment_offset,
-                state["fragment_slices_received"],
+                state.get("fragment_slices_received", 0),
                 state["_fragment_slices_remaining"],
                 state["fragment_slice_count"],
             )
